@@ -821,3 +821,117 @@ def cis_trans_mixture_pg(rng, cls):
     order = list(pg["atoms"])
     rng.shuffle(order)
     return sem.pg_relabel(pg, dict(zip(order, ids)))
+
+
+def high_coordination_pg(rng, cls, k):
+    """a centre with k = 7..9 ligands of several elements and no descriptor (colour refinement of the stereo classes
+    walks over all k! neighbour orders of such an atom - seconds per hash for k = 9), a few ligands carry hydrogens"""
+    pg = sem.pg_empty(cls)
+    ids = make_ids(rng, k + 8)
+    c = ids[0]
+    pg["atoms"][c] = {"atom_type": rng.choice([26, 40, 57, 92])}
+    lig = ids[1 : k + 1]
+    for i, a in enumerate(lig):
+        pg["atoms"][a] = {"atom_type": rng.choice([6, 6, 7, 8, 17])}
+        pg["bonds"][frozenset((c, a))] = {}
+    nxt = k + 1
+    for a in rng.sample(lig, 3):
+        h = ids[nxt]
+        nxt += 1
+        pg["atoms"][h] = {"atom_type": 1}
+        pg["bonds"][frozenset((a, h))] = {}
+    if cls in REACTION:
+        b = rng.choice(sorted(pg["bonds"], key=sorted))
+        pg["bonds"][b]["reaction"] = rng.choice(ROLES)
+    return pg
+
+
+def high_coordination_specs(ctx, rng):
+    from .snapshot import CLASS_NAMES
+
+    plan = [7] * 8 + [8] * 8 + [9] * 4 if ctx.tier == "quick" else [7] * 32 + [8] * 32 + [9] * 16
+    for k, deg in enumerate(plan):
+        seed = rng.randrange(1 << 30)
+        if k % ctx.nshards == ctx.shard:
+            yield k, deg, CLASS_NAMES[k % 4], seed
+
+
+def ligand_exchange_pair(rng, cls, kmax=8):
+    """two graphs with the same atoms: two centres of one element with k1, k2 one-atom ligands; in the second graph a
+    ligand of the first centre and a ligand of another element of the second centre have changed places. Every ligand
+    still sees a centre of the same element - only the neighbour MULTISETS of the centres differ."""
+    for _ in range(20):
+        k1, k2 = rng.randint(2, kmax), rng.randint(2, kmax)
+        els = rng.sample([9, 17, 35, 8, 1], 2)
+        a = sem.pg_empty(cls)
+        ids = make_ids(rng, k1 + k2 + 2)
+        c1, c2 = ids[0], ids[1]
+        z = rng.choice([40, 26, 14, 15, 6])
+        a["atoms"][c1] = {"atom_type": z}
+        a["atoms"][c2] = {"atom_type": z}
+        l1 = ids[2 : 2 + k1]
+        l2 = ids[2 + k1 :]
+        for x in l1:
+            a["atoms"][x] = {"atom_type": rng.choice(els)}
+            a["bonds"][frozenset((c1, x))] = {}
+        for x in l2:
+            a["atoms"][x] = {"atom_type": rng.choice(els)}
+            a["bonds"][frozenset((c2, x))] = {}
+        p1 = [x for x in l1 if a["atoms"][x]["atom_type"] == els[0]]
+        p2 = [x for x in l2 if a["atoms"][x]["atom_type"] == els[1]]
+        if not p1 or not p2:
+            continue
+        x, y = rng.choice(p1), rng.choice(p2)
+        b = sem.pg_copy(a)
+        del b["bonds"][frozenset((c1, x))], b["bonds"][frozenset((c2, y))]
+        b["bonds"][frozenset((c1, y))] = {}
+        b["bonds"][frozenset((c2, x))] = {}
+        return a, sem.pg_relabel(b, random_bijection(rng, b))
+    return None
+
+
+def twin_pair(rng, cls):
+    """(a, b): a has two ADJACENT atoms with the same closed neighbourhood (the bridgeheads of a propellane, or a
+    diatomic padded with placeholders) that both carry a descriptor over the SAME atom set; with unspecified parity
+    the two descriptors are equal and hash alike although they are two descriptors. b is the same skeleton under other
+    ids with one of the two descriptors removed, specified, or unchanged."""
+    k = rng.choice([0, 2, 3, 3, 4, 5])
+    pg = sem.pg_empty(cls)
+    ids = make_ids(rng, k + 2 + 6)
+    t1, t2 = ids[0], ids[1]
+    z = rng.choice([6, 14, 15])
+    pg["atoms"][t1] = {"atom_type": z}
+    pg["atoms"][t2] = {"atom_type": z}
+    pg["bonds"][frozenset((t1, t2))] = {}
+    common = ids[2 : 2 + k]
+    for c in common:
+        pg["atoms"][c] = {"atom_type": rng.choice([6, 6, 8])}
+        pg["bonds"][frozenset((t1, c))] = {}
+        pg["bonds"][frozenset((t2, c))] = {}
+    nxt = 2 + k
+    for c in common[:2]:
+        if rng.random() < 0.5:
+            pg["atoms"][ids[nxt]] = {"atom_type": 1}
+            pg["bonds"][frozenset((c, ids[nxt]))] = {}
+            nxt += 1
+    n_lig = k + 1
+    klass = {1: "Tetrahedral", 3: "Tetrahedral", 4: "Tetrahedral", 5: "TrigonalBipyramidal", 6: "Octahedral"}[n_lig]
+    pad = {1: 3, 3: 1}.get(n_lig, 0)
+
+    def desc(centre, other, parity):
+        lig = [other, *common] + [None] * pad
+        rng.shuffle(lig)
+        return (klass, (centre, *lig), parity)
+
+    par = rng.choice([None, None, None, 1])
+    pg["astereo"][t1] = desc(t1, t2, par)
+    pg["astereo"][t2] = desc(t2, t1, rng.choice([None, None, par]))
+    other = sem.pg_copy(pg)
+    how = rng.random()
+    if how < 0.45:
+        del other["astereo"][rng.choice([t1, t2])]
+    elif how < 0.7:
+        t = rng.choice([t1, t2])
+        d = other["astereo"][t]
+        other["astereo"][t] = (d[0], d[1], rng.choice([1, -1]) if d[2] is None else None)
+    return pg, sem.pg_relabel(other, random_bijection(rng, other))
